@@ -208,13 +208,16 @@ func (st *gstate) fontMap() *fontscan.FontMap {
 	return st.fm
 }
 
-func (st *gstate) addToFontMap(f int, family string) {
+func (st *gstate) addToFontMap(f int, family string, aspect *font.Aspect) {
 	fm := st.fontMap()
 	face := st.face(f)
 	st.used[f] = true
 	md := face.Describe()
 	if family != "" {
 		md.Family = family
+	}
+	if aspect != nil { // the caller's own description of this face (an instance, a synthetic bold …)
+		md.Aspect = *aspect
 	}
 	fm.AddFace(face, fontscan.Location{File: st.entries[f].File, Index: uint16(st.entries[f].Index), Instance: uint16(st.fmFaces)}, md)
 	st.fmFaces++
@@ -496,11 +499,17 @@ func (st *gstate) exec(op Op) (res []byte, panicMsg string) {
 			st.hbFonts[f] = nil
 		}
 		face := st.faces[f]
+		if op.A != 0 || op.B != 0 {
+			face.SetPpem(uint16(op.A), uint16(op.B))
+		}
 		vars := make([]font.Variation, len(op.V))
 		for i, v := range op.V {
 			vars[i] = font.Variation{Tag: tag(v.Tag), Value: v.Value}
 		}
 		face.SetVariations(vars)
+		px, py := face.Ppem()
+		o.u(uint64(px))
+		o.u(uint64(py))
 		for _, c := range face.Coords() {
 			o.i(int64(c))
 		}
@@ -762,7 +771,7 @@ func (st *gstate) exec(op Op) (res []byte, panicMsg string) {
 		var fmap shaping.Fontmap
 		if op.A == 1 {
 			if st.fmFaces == 0 {
-				st.addToFontMap(f, "")
+				st.addToFontMap(f, "", nil)
 			}
 			fmap = st.fontMap()
 		} else {
@@ -804,8 +813,22 @@ func (st *gstate) exec(op Op) (res []byte, panicMsg string) {
 		if len(op.Fam) > 0 {
 			fam = op.Fam[0]
 		}
-		st.addToFontMap(f, fam)
+		var aspect *font.Aspect
+		if op.B == 1 {
+			aspect = &font.Aspect{Style: font.Style(op.Style), Weight: font.Weight(op.Weight), Stretch: font.Stretch(op.Stretch)}
+		}
+		st.addToFontMap(f, fam, aspect)
 		o.i(int64(st.fmFaces))
+		// what the map now says about the font
+		ft := st.pool[f]
+		loc := st.fm.FontLocation(ft)
+		o.s(strconv.Quote(loc.File))
+		o.u(uint64(loc.Instance))
+		family, asp := st.fm.FontMetadata(ft)
+		o.s(strconv.Quote(family))
+		o.i(int64(asp.Style))
+		o.f(float32(asp.Weight))
+		o.f(float32(asp.Stretch))
 
 	case kFmQuery:
 		fm := st.fontMap()
@@ -817,7 +840,7 @@ func (st *gstate) exec(op Op) (res []byte, panicMsg string) {
 
 	case kFmResolve:
 		if st.fmFaces == 0 {
-			st.addToFontMap(f, "")
+			st.addToFontMap(f, "", nil)
 		}
 		fm := st.fontMap()
 		for _, r := range op.R {
@@ -839,6 +862,12 @@ func (st *gstate) exec(op Op) (res []byte, panicMsg string) {
 			if id, ok := language.NewLangID(language.NewLanguage(op.Lang)); ok {
 				o.i(int64(st.poolIndex(fm.ResolveFaceForLang(id))))
 			}
+		}
+		for _, fam := range op.Fam {
+			loc, ok := fm.FindSystemFont(fam)
+			o.t(ok)
+			o.s(strconv.Quote(loc.File))
+			o.i(int64(len(fm.FindSystemFonts(fam))))
 		}
 
 	case kFmSystem:
